@@ -162,6 +162,10 @@ impl SignatureContext<'_> {
 
         let amz_date = AmzDate::parse(info.x_amz_date).map_err(|_| invalid_request!("invalid field: x-amz-date"))?;
 
+        if credential.date != amz_date.fmt_date().as_str() {
+            return Err(invalid_request!("invalid field: x-amz-credential"));
+        }
+
         let access_key = credential.access_key_id.to_owned();
         let secret_key = auth.get_secret_key(&access_key).await?;
 
@@ -303,6 +307,14 @@ impl SignatureContext<'_> {
         let secret_key = auth.get_secret_key(access_key).await?;
 
         let amz_date = extract_amz_date(&self.hs)?.ok_or_else(|| invalid_request!("missing header: x-amz-date"))?;
+
+        // the Authorization header is not covered by the signature: its scope has to be the one that is signed
+        if authorization.credential.date != amz_date.fmt_date().as_str() {
+            return Err(s3_error!(
+                AuthorizationHeaderMalformed,
+                "the date of the credential scope does not match x-amz-date"
+            ));
+        }
 
         let is_stream = matches!(amz_content_sha256, Some(AmzContentSha256::MultipleChunks));
 
